@@ -940,6 +940,44 @@ func ruleTextIdentity(p *Prog, l *Ledger, tier string) {
 			l.Undecide(rule, spec.fn, key, p.Pos(f.Pos()), spec.fn+" is the text identity Unfragment compares, and "+why+": whether every line still contributes (with a separator at every position) cannot be read off its shape")
 		}
 	}
+	// the identity is made of the texts themselves: nothing rewrites them on the way (a normalisation of spaces makes
+	// cues with distinct texts compare equal)
+	for _, h := range p.Helpers(str) {
+		if fnPkg(h) != p.LibSSA {
+			continue
+		}
+		for _, b := range h.Blocks {
+			for _, ins := range b.Instrs {
+				c, ok := ins.(*ssa.Call)
+				if !ok {
+					continue
+				}
+				if _, isB := c.Call.Value.(*ssa.Builtin); isB {
+					continue
+				}
+				cn := calleeName(&c.Call)
+				if sc := c.Call.StaticCallee(); sc != nil && fnPkg(sc) == p.LibSSA {
+					continue
+				}
+				if cn == "strings.Join" || strings.HasPrefix(cn, "(*strings.Builder).") || strings.HasPrefix(cn, "(*bytes.Buffer).") {
+					continue
+				}
+				usesText := false
+				for _, a := range c.Call.Args {
+					if isStringT(a.Type()) {
+						usesText = true
+					}
+					if sl, ok := a.Type().Underlying().(*types.Slice); ok && isStringT(sl.Elem()) {
+						usesText = true
+					}
+				}
+				if !usesText {
+					continue
+				}
+				l.Fail(rule, FnName(h), l.Key(rule, FnName(h), "rewrites", cn), p.Pos(c.Pos()), FnName(h)+" passes text through "+cn+" while building the string Unfragment compares: the identity of a cue is its text as it is, and a rewriting (spaces collapsed, characters replaced) makes cues whose texts differ compare equal and merge")
+			}
+		}
+	}
 	// the text function reads every run's text
 	read := fieldsRead(p, []*ssa.Function{str})
 	for _, f := range []string{"Item.Lines", "Line.Items", "LineItem.Text"} {
